@@ -559,7 +559,19 @@ func (c *evalCtx) callExpr(n *ast.CallExpr) Value {
 		if !ok {
 			c.errf("%s: first argument must be a variable name", fname)
 		}
-		lo, hi := c.term(arg(1)), c.term(arg(2))
+		lo := c.term(arg(1))
+		var hi *Term
+		if hid, isID := arg(2).(*ast.Ident); isID && hid.Name == "inf" {
+			hi = nil // no upper bound
+		} else {
+			hi = c.term(arg(2))
+		}
+		ltHi := func(k *Term) *Term {
+			if hi == nil {
+				return tTrue
+			}
+			return Lt(k, hi)
+		}
 		bv := Sym(fresh(id.Name), SInt)
 		cc := c.with(map[string]Value{id.Name: Sc{bv}})
 		cc.facts = false
@@ -569,7 +581,7 @@ func (c *evalCtx) callExpr(n *ast.CallExpr) Value {
 			pv := cc.rv(cc.eval(pe))
 			pats = append(pats, scT(pv))
 		}
-		rng := And(Le(lo, bv), Lt(bv, hi))
+		rng := And(Le(lo, bv), ltHi(bv))
 		// Quantify over the absolute array index (p = X + k) instead of the relative one, so that
 		// array reads have the bare bound variable as index and E-matching sees every ground read.
 		// When the body reads several arrays at different offsets, the (equivalent) variants for each
@@ -602,7 +614,7 @@ func (c *evalCtx) callExpr(n *ast.CallExpr) Value {
 				cc2 := c.with(map[string]Value{id.Name: Sc{k}})
 				cc2.facts = false
 				b2 := cc2.term(arg(3))
-				r2 := And(Le(lo, k), Lt(k, hi))
+				r2 := And(Le(lo, k), ltHi(k))
 				if fname == "forall" {
 					variants = append(variants, Forall([]*Term{pv}, Implies(r2, b2)))
 				} else {
@@ -680,6 +692,22 @@ func (c *evalCtx) callExpr(n *ast.CallExpr) Value {
 		arr := c.x.contentArray(c.st, c.heap, sl)
 		arr = Store(Store(arr, Add(sl.O, i), Div(Mod(v, Int(65536)), Int(256))), Add(Add(sl.O, i), Int(1)), Mod(v, Int(256)))
 		return Sl{Arr: arr, O: sl.O, L: sl.L, C: sl.L, R: Int(-2), Elem: sl.Elem}
+	case "lenslice":
+		// lenslice(a, F): the sequence len(a[0].F), len(a[1].F), ... for a slice-typed field F of a slice of structs
+		a, ok := c.rv(c.eval(arg(0))).(Sl)
+		if !ok {
+			c.errf("lenslice of non-slice")
+		}
+		fname := arg(1).(*ast.Ident).Name
+		_, ft, ok := fieldIndex(a.Elem, fname)
+		if !ok {
+			c.errf("lenslice: no field %s", fname)
+		}
+		if _, isSl := ft.Underlying().(*types.Slice); !isSl {
+			c.errf("lenslice: field %s is not a slice", fname)
+		}
+		fam := c.heap.family(familyName(a.Elem, fname+"$l"), SInt)
+		return Sl{Arr: Select(fam, a.R), O: a.O, L: a.L, C: a.L, R: Int(-2), Elem: types.Typ[types.Int]}
 	case "sameslice":
 		a, b := c.rv(c.eval(arg(0))).(Sl), c.rv(c.eval(arg(1))).(Sl)
 		return Sc{And(Eq(a.R, b.R), Eq(a.O, b.O), Eq(a.L, b.L), Eq(a.C, b.C))}
@@ -1040,7 +1068,7 @@ func (c *evalCtx) resolvable(e ast.Expr) bool {
 			return false
 		case *ast.Ident:
 			switch v.Name {
-			case "true", "false", "nil":
+			case "true", "false", "nil", "inf":
 				return true
 			}
 			if bound[v.Name] {
